@@ -1221,7 +1221,50 @@ pub fn explore_program(p: &Prog, cands: &[Cand], cfg: &ExploreCfg, part: &mut Pa
             });
         }
     });
-    let g = shared.into_inner().unwrap();
+    let mut g = shared.into_inner().unwrap();
+    // a finding is reported only if a fresh session shows it again (known findings are matched by
+    // `finish` without a second look); per signature at most two witnesses are tried, each twice
+    {
+        let known: BTreeSet<String> = crate::common::load_known_findings().into_iter().filter(|k| k.kind == "finding").map(|k| k.signature).collect();
+        let mut verdict: BTreeMap<String, bool> = BTreeMap::new();
+        let mut witnesses_tried: BTreeMap<String, u32> = BTreeMap::new();
+        let all = std::mem::take(&mut g.findings);
+        for (f, rp) in &all {
+            if known.contains(&f.sig) || verdict.get(&f.sig) == Some(&true) {
+                continue;
+            }
+            let n = witnesses_tried.entry(f.sig.clone()).or_insert(0);
+            if *n >= 2 {
+                continue;
+            }
+            *n += 1;
+            let path: Vec<Action> = serde_json::from_value(rp["path"].clone()).unwrap_or_default();
+            let slow = f.sig.contains(":debugger-hung");
+            let mut ok = false;
+            for _ in 0..if slow { 1 } else { 2 } {
+                let (_, out) = run_session(p, cands, &path, cfg.oracles.bt);
+                g.replayed_steps += path.len() as u64;
+                let again = match &out {
+                    WorkerOutcome::Ok(res) => interpret(p, cands, &path, res, &cfg.oracles, cfg.prop).1.iter().any(|x| x.sig == f.sig),
+                    WorkerOutcome::Crashed { .. } => f.sig.contains(":debugger-crashed") || f.sig.contains(":teardown-failed"),
+                    WorkerOutcome::Timeout { .. } => f.sig.contains(":debugger-hung"),
+                };
+                if again {
+                    ok = true;
+                    break;
+                }
+            }
+            let e = verdict.entry(f.sig.clone()).or_insert(false);
+            *e = *e || ok;
+        }
+        for (f, rp) in all {
+            if known.contains(&f.sig) || verdict.get(&f.sig) == Some(&true) {
+                g.findings.push((f, rp));
+            } else {
+                g.unreproducible.push(format!("[{}] finding {} seen once and not reproduced by fresh sessions: {}", p.name(), f.sig, f.detail.chars().take(300).collect::<String>()));
+            }
+        }
+    }
     part.states += g.known.len() as u64;
     part.transitions += g.transitions;
     part.evaluations += g.transitions + g.replayed_steps;
